@@ -467,7 +467,7 @@ func coverage(c *common.Ctx, r *common.Result) map[string]interface{} {
 		"panics":                r.Counts["skipped_panic"],
 		"model_undefined":       r.Counts["skipped_model"],
 		"open_point_resolution": r.SetMembers("resolutions_consistent_with_every_program"),
-		"bounds":                "depth 0-2 with payloads of length <= 2 (quick); plus depth 3 with payloads of length <= 1 (thorough); 52 constructs (quick: while1, forin1, cfor1, catch, finally, try, func, closureDeepFor, factory0 and factory2 only at depth <= 1), 5 exits where legal, 4 top-level pre-bindings",
+		"bounds":                "depth 0-2 with payloads of length <= 2 (quick); plus depth 3 with payloads of length <= 1 (thorough); 53 constructs (quick: while1, forin1, cfor1, catch, finally, try, func, closureDeepFor, factory0 and factory2 only at depth <= 1), 5 exits where legal, 4 top-level pre-bindings",
 	}
 }
 
@@ -541,7 +541,7 @@ func init() {
 	common.Register(&common.Prop{
 		ID: "C04", Level: "exploration", Run: run, Coverage: coverage, Replay: replay,
 		Assumptions: []string{
-			"programs are spines PRE; W1[W2[W3[PAYLOAD; EXIT]; READ]; READ]; READ over 52 scope-creating constructs, payloads over {n = v, var n = v, read n} on names a and b plus `func a() { }` alone or with reads and the unpacking assignment `a, b = [v, w]` and the multi-name declarations `var a, b = [v, w]` / `var a, b = v, w` alone or followed by a read, exits {fall, break, continue, return, throw caught by an outer try}",
+			"programs are spines PRE; W1[W2[W3[PAYLOAD; EXIT]; READ]; READ]; READ over 53 scope-creating constructs, payloads over {n = v, var n = v, read n} on names a and b plus `func a() { }` alone or with reads and the unpacking assignment `a, b = [v, w]` and the multi-name declarations `var a, b = [v, w]` / `var a, b = v, w` alone or followed by a read, exits {fall, break, continue, return, throw caught by an outer try}",
 			"values are distinct integers per write, so a read identifies the writer; reads are `n ?? \"U\"` through a host probe",
 			"open points are not compared but must be resolved consistently: loop body scope per loop vs per iteration (separately for for/while, C-for, for-in), scope shared by try/catch/finally or not, what break/continue/return do when they leave a try body (owned by C08), whether break inside switch leaves the loop or the switch; M.n for a name the module does not bind",
 			"error messages are never compared, only error-vs-success; panics are counted, not judged (C01)",
